@@ -36,12 +36,15 @@ MANIFEST = dict(
          'starts with the message and shows the line number and the file name, every Token member has a message, and the text of the '
          'error a run ends with is the same for every chunking. Keyvalues.parse installs KeyValError on the tokenizer on every path '
          '(census obligation; the parser model calls every tokenizer error a KeyValError). '
+         'The premise of the chunk-independence theorem is itself read from the source: outside __init__ and _next_char no method of '
+         'Tokenizer touches _cur_chunk/_char_index/_chunk_iter except by `self._char_index -= 1`, never twice without a read (census '
+         'obligations tokenizer_sees_chunks_only_through_next_char / tokenizer_pushes_back_only_after_a_read). '
          'Correspondences on every run: tokenizer model vs real Tokenizer on every string over a 23-symbol alphabet up to length 3 x '
          'all 128 option vectors in both tiers (implementation runs shared between option vectors that agree on every option a run '
          'read; thorough also length 4 x 16), random texts, reader state after '
          'every call; BaseTokenizer model vs the real class on every sequence of up to 4 (5) of 12 public operations on 5 sources '
          '(result, _pushback list, line_num after each); parser model vs Keyvalues.parse outcome class on every token list over 9 '
-         'tokens up to length 4 (5) x 16 option vectors (+ one length deeper for 1 (4) vectors) through IterTokenizer, every text over '
+         'tokens up to length 4 (5) x 16 option vectors (+ one length deeper for 1 (2) vectors) through IterTokenizer, every text over '
          '13 symbols up to length 3 (4), error texts of every Token member x value x file name x line; '
          'structured random token streams and texts. The implementation alone is checked for chunked == unchunked on all cut sets, '
          'foreign exceptions, EOF for ever, the read bound, and delivery = plain stream under peeks and push-backs.',
@@ -513,7 +516,7 @@ def _impl_chk_trace(bits: int, whole: bool, cs: list[str]) -> list[int]:
             t, v = tk()
         except TokenSyntaxError as e:
             i, args = U.err_code(e.mess)
-            out += [2, i, e.line_num, len(args), *args, tk._char_index + 1, len(tk._cur_chunk)]
+            out += [2, i, e.line_num if type(e.line_num) is int else 0, len(args), *args, tk._char_index + 1, len(tk._cur_chunk)]
             break
         except Exception as e:  # noqa: BLE001 - never matches the model
             out += [4, 0, *map(ord, type(e).__name__)]
@@ -702,7 +705,7 @@ def corr_kvparse(ck: Ck, escalate: bool) -> None:
     rng = ck.rng
     # ---- (1) exhaustive token level
     n_all, n_deep = (5, 6) if big else (4, 5)
-    deep_bits = [2, 10, 6, 3] if big else [2]        # quick: one vector at the deeper length (CPU budget on the shared machine)
+    deep_bits = [2, 10] if big else [2]        # vectors at the deeper length (CPU budget on the shared machine; round 2 had 4 / 2)
     tjobs = [(b, 0, n_all) for b in range(16)] + [(b, 0, n_deep) for b in deep_bits] + [(2, 1, n_all), (10, 1, n_all)]
     alpha = coq_list(f'({v}, {coq_str(sv)})' for v, sv in KV_TOK_ALPHA)
     cjobs = [[f'hfin (hash_list (kv_tokens_shard [{b}] {coq_flags(KV_FLAGSETS[fs])} {alpha} {n}))'] for b, fs, n in tjobs]
@@ -1131,7 +1134,51 @@ def corr_errfmt(ck: Ck) -> None:
     if not ok:
         ck.tie_broken.append('correspondence error texts vs Text/ErrFmt.v')
         ck.extra['errfmt_disagreements'] = bad[:10]
-    # oracle on the implementation alone (property: the error, line included, is what is reported; formatting never fails)
+    ck.sample({'error_text_case': {'call': "Tokenizer('', 'f.txt').error(Token.STRING, 'v') at line 7",
+                                   'str': str(Tokenizer('', 'f.txt').error(Token.STRING, 'v')).replace('line 1', 'line 7')}})
+
+
+def premade_oracle(ck: Ck) -> None:
+    """Keyvalues.parse on a tokenizer made by the caller (the `isinstance(file_contents, BaseTokenizer)` path): whatever error type
+    the tokenizer was built with and whether or not a file name is passed, nothing but KeyValError may leave."""
+    from srctools.keyvalues import KeyValError, Keyvalues
+    from srctools.tokenizer import IterTokenizer, Token, Tokenizer, TokenSyntaxError
+
+    class CustomSyntaxError(TokenSyntaxError):
+        pass
+    texts = ['"a', '"a" "b" }', '"a" { "b"', '"a" "b" "c" "d"\n', '"a" "b" [f\n', '"a" "b"\n', '"a"\n{\n"b" "c\\']
+    toks = [[(Token.STRING, 'a'), (Token.BRACE_CLOSE, '}')], [(Token.STRING, 'a'), (Token.NEWLINE, '\n'), (Token.BRACE_OPEN, '{')],
+            [(Token.STRING, 'a'), (Token.STRING, 'b'), (Token.STRING, 'c')], [(Token.EQUALS, '=')], [(Token.STRING, 'a'), (Token.STRING, 'b')]]
+    etypes = [('default', None), ('TokenSyntaxError', TokenSyntaxError), ('subclass', CustomSyntaxError), ('KeyValError', KeyValError)]
+    cases = []
+    for ename, et in etypes:
+        for s in texts:
+            cases.append(('Tokenizer', ename, repr(s), lambda s=s, et=et: Tokenizer(s, 'made.kv', string_bracket=True) if et is None else Tokenizer(s, 'made.kv', et, string_bracket=True)))
+            cases.append(('Tokenizer-chunks', ename, repr(s), lambda s=s, et=et: Tokenizer(list(s), None, string_bracket=True) if et is None else Tokenizer(list(s), None, et, string_bracket=True)))
+        for tl in toks:
+            cases.append(('IterTokenizer', ename, '+'.join(t.name for t, _ in tl), lambda tl=tl, et=et: IterTokenizer(tl) if et is None else IterTokenizer(tl, 'made.kv', et)))
+    for maker, ename, what, mk in cases:
+        for fkw in ({}, {'filename': 'passed.kv'}):
+            ck.count('oracle_kvparse_premade_tokenizer')
+            try:
+                Keyvalues.parse(mk(), **fkw)
+            except KeyValError:
+                pass
+            except BaseException as e:  # noqa: BLE001 - the property says nothing else may escape
+                if not capped('premade'):
+                    ck.violation(f'kvparse-premade-tokenizer:{maker}:error-type-{ename}:{"filename" if fkw else "no-filename"}:{type(e).__name__}',
+                                 f'Keyvalues.parse({maker}({what}, error type {ename}){", filename=..." if fkw else ""}) raised {type(e).__name__}: '
+                                 f'{str(e)[:80]!r} (only KeyValError may escape)',
+                                 {'kind': 'premade', 'maker': maker, 'etype': ename, 'what': what, 'filename': bool(fkw)})
+
+
+def errtext_oracle(ck: Ck) -> None:
+    """Oracle on the implementation alone (runs even when the error-text translator fails closed): error(Token.X [, value]) builds a
+    TokenSyntaxError whose line_num is the tokenizer's, whose text starts with the message and shows that line; formatting never
+    fails."""
+    from srctools.tokenizer import Token, Tokenizer, TokenSyntaxError
+    vals = [None, '', 'v', 'va"l\n{}']
+    tm = [(t, v) for t in Token for v in vals]
     for t, v in tm:
         for fname in (None, 'f'):
             tk = Tokenizer('', fname)
@@ -1147,8 +1194,7 @@ def corr_errfmt(ck: Ck) -> None:
                                  f'Tokenizer("", {fname!r}).error(Token.{t.name}{"" if v is None else ", " + repr(v)}) and its str(): {type(ex).__name__}: {ex} '
                                  f'(must build a TokenSyntaxError whose text starts with the message and shows line 3)',
                                  {'kind': 'errtext', 'token': t.value, 'value': v, 'file': fname})
-    ck.sample({'error_text_case': {'call': "Tokenizer('', 'f.txt').error(Token.STRING, 'v') at line 7",
-                                   'str': str(Tokenizer('', 'f.txt').error(Token.STRING, 'v')).replace('line 1', 'line 7')}})
+
 
 
 # ------------------------------------------------------------------------------------------------ oracle on the implementation
@@ -1463,6 +1509,8 @@ def search(ck: Ck, escalate: bool) -> None:
                              {'kind': 'kvparse-chunks', 'text': [ord(c) for c in small], 'kw': kw})
                 break
     basetok_search(ck, big)
+    errtext_oracle(ck)
+    premade_oracle(ck)
     ck.sample({'oracle_example': {'text': 'a\r\n/*x*/b', 'chunks': ['a\r', '', '\n/*x*', '/b'], 'check': 'same trace as the single string'}})
 
 
@@ -1501,10 +1549,12 @@ def run(ck: Ck) -> None:
     ok_k = ck.translate('KvParseSites_gen', c03_kvparse.translate)
     ok_b = ck.translate('BaseTokSites_gen', c03_basetok.translate)
     ok_e = ck.translate('ErrFmt_gen', c03_errfmt.translate)
+    if not ok_e:            # keep everything else alive: an all-"raises" configuration; its obligations and correspondence are skipped
+        ck.gen('ErrFmt_gen', c03_errfmt.EMPTY_GEN, {'failed_closed': True})
     ok_h = ck.translate('HsRows_gen', c02_hstring.translate)      # _handle_string is part of the chunk-independence model as well
     if not ok_h:
         ck.gen('HsRows_gen', c02_hstring.EMPTY_GEN, {'failed_closed': True})
-    built = ok_t and ok_k and ok_b and ok_e and ck.build(['Props/C03.vo', 'Text/TokEnum.vo', 'Text/KvErrGen.vo', 'Text/BaseTokEnum.vo', 'Text/ErrFmtGen.vo'])
+    built = ok_t and ok_k and ok_b and ck.build(['Props/C03.vo', 'Text/TokEnum.vo', 'Text/KvErrGen.vo', 'Text/BaseTokEnum.vo', 'Text/ErrFmtGen.vo'])
     if built:
         started = start_exhaustive_model(ck)
         th = U.theorems_in_background(ck, 'Props/C03.v')
@@ -1533,7 +1583,7 @@ def run(ck: Ck) -> None:
             'error_of_a_token_covers_every_member': 'error_covers_every_token',
             'push_back_of_an_operator_redelivers_what_the_tokenizer_delivers': 'operator_vals_match_tokenizer',
             'push_back_keeps_the_value_of_value_tokens': 'value_tokens_keep_their_value',
-        }, 'btinst'), (EF_IMPORTS + ['SV.Gen.ErrFmt_gen'], {
+        }, 'btinst')] + ([] if not ok_e else [(EF_IMPORTS + ['SV.Gen.ErrFmt_gen'], {
             'format_exc_fileinfo_never_raises': 'fileinfo_never_raises',
             'error_text_starts_with_the_message': 'fileinfo_starts_with_the_message',
             'error_text_is_the_message_without_file_and_line': 'fileinfo_is_the_message_without_file_and_line',
@@ -1545,7 +1595,7 @@ def run(ck: Ck) -> None:
             'error_passes_message_filename_line_num_to_error_type': 'gen_error_ctor_ok',
             'error_formats_str_messages_exactly_when_arguments_are_given': 'gen_error_str_form_ok',
             'error_refuses_a_token_with_two_values': 'gen_error_two_values_refused',
-        }, 'efinst')])
+        }, 'efinst')]))
         _stage(ck, 'translate+build+theorems+instances')
         corr_exhaustive(ck, escalate, started)
         _stage(ck, 'corr_exhaustive')
@@ -1555,7 +1605,8 @@ def run(ck: Ck) -> None:
         _stage(ck, 'corr_kvparse')
         corr_basetok(ck, escalate)
         _stage(ck, 'corr_basetok')
-        corr_errfmt(ck)
+        if ok_e:
+            corr_errfmt(ck)
         _stage(ck, 'corr_errfmt')
         U.join_theorems(ck, th)
     search(ck, escalate)
@@ -1581,6 +1632,18 @@ def replay(data: dict) -> int:
             print(f' model (parser model as configured by the last ./check run): {kv_name(int(mv[0].split("%")[0]))}')
         print('VIOLATED' if c >= 300 else 'property holds on this input')
         return 1 if c >= 300 else 0
+    if r.get('kind') == 'premade':
+        class _Ck:                      # run the oracle alone and show what it reports
+            violations: list = []
+            def count(self, *_a): pass
+            def violation(self, key, what, _r): self.violations.append((key, what))
+        _REPORTED.clear()
+        fake = _Ck()
+        premade_oracle(fake)            # type: ignore[arg-type]
+        for key, what in fake.violations:
+            print(key, '::', what)
+        print('VIOLATED' if fake.violations else 'property holds on this input')
+        return 1 if fake.violations else 0
     if r.get('kind') == 'errtext':
         from srctools.tokenizer import Token, Tokenizer, TokenSyntaxError
         tk = Tokenizer('', r.get('file'))
